@@ -74,6 +74,7 @@ def run(harnesses, timeout_each=1500):
     t0 = time.time()
     scratch = tempfile.mkdtemp(prefix='gv_kani_')
     results = []
+    lock_fh = None
     try:
         for item in ('src', 'macros', 'Cargo.toml', 'Cargo.lock', 'README.md'):
             s = os.path.join(REPO, item)
@@ -106,6 +107,21 @@ def run(harnesses, timeout_each=1500):
         target_dir = os.environ.get('GV_KANI_TARGET', os.path.join(HERE, 'gen', 'kani_target'))
         os.makedirs(target_dir, exist_ok=True)
         env = dict(os.environ, CARGO_NET_OFFLINE='true', CARGO_TARGET_DIR=target_dir)
+        # The artifact names under the shared target directory do not depend on the scratch path, and kani-driver works on them
+        # after cargo has released its own build lock: two checks running at the same time would read each other's goto binaries
+        # (observed: "goto-cc: Out of memory" on a half-written file; a mixed-up tree would be worse).  The whole Kani phase of a
+        # check therefore holds an exclusive lock on the target directory; the lock dies with the process.
+        import fcntl
+        lock_fh = open(os.path.join(target_dir, '.gv_lock'), 'w')
+        fcntl.flock(lock_fh, fcntl.LOCK_EX)
+        # mtimes again, now that we own the target directory: sources must be newer than anything a previous holder built
+        now = time.time()
+        for root, _, files in os.walk(scratch):
+            for fn in files:
+                try:
+                    os.utime(os.path.join(root, fn), (now, now))
+                except OSError:
+                    pass
         groups = {}
         for h in harnesses:
             groups.setdefault((h.get('tests', False), h.get('features', '')), []).append(h)
@@ -210,6 +226,10 @@ def run(harnesses, timeout_each=1500):
                           'counts_as': h.get('counts_as', 'bounded'), 'what': h['what'], 'cmd': ' '.join(cmd)})
                 results.append(r)
     finally:
+        try:
+            lock_fh.close()     # releases the lock
+        except Exception:
+            pass
         shutil.rmtree(scratch, ignore_errors=True)
     for r in results:
         r['wall_s_total'] = round(time.time() - t0, 1)
